@@ -29,6 +29,7 @@ type TAct struct {
 	CbAct     string            `json:"cb_act,omitempty"`
 	Stateful  bool              `json:"stateful,omitempty"` // subf/clonef: the node's filter is one stateful user object, mutated and re-submitted by pointer
 	ReuseOf   int               `json:"reuse_of,omitempty"` // monitor: > 0 = attach the Handler value of monitor node ReuseOf-1 (if that monitor is done)
+	Same      bool              `json:"same,omitempty"` // refilter: submit the filter in force again (built anew)
 	NoInit    bool              `json:"no_init,omitempty"` // monitor: the handler has no OnInitialize
 	Block     bool              `json:"block,omitempty"`
 	Async     bool              `json:"async,omitempty"`
@@ -353,7 +354,13 @@ func (t *treeRun) act(a TAct) {
 		if n == nil || !n.Filtered() {
 			return
 		}
-		err := h.Refilter(n, a.Filter)
+		f := a.Filter
+		if a.Same && n.HasFilter {
+			// the filter in force, constructed again: equal, and a no-op
+			f = n.Filter
+			detsim.Count("probe:refilter-with-the-filter-in-force")
+		}
+		err := h.Refilter(n, f)
 		if err != nil && !t.closedByScenario(n) && !t.triggered {
 			detsim.Fail("api-error", "Refilter on running %s failed with %v", n.Name(), err)
 		}
